@@ -59,12 +59,20 @@ func c04pModel(flagVals, enumVals [3]int64, withBase bool) *dsl.Namespace {
 		b.field("zeta", b.st("float")),
 		b.field("alpha", b.vec(b.st("Level"))))
 	names := b.alias(NS, "Lookup", nil, b.mapOf(b.st("string"), b.st("Entry")))
+	// unions whose cases are ALIASES (of a primitive, of a vector, of a record): backends look through aliases to decide how
+	// to render a union - they must do so on a copy
+	label := b.alias(NS, "Label", nil, b.st("string"))
+	ids := b.alias(NS, "Ids", nil, b.vec(b.st("uint32")))
+	entryAlias := b.alias(NS, "EntryAlias", nil, b.st("Entry"))
+	tagged := b.record(NS, "Tagged", nil, b.field("what", b.gt(nil, b.st("Label"), b.st("Ids"))), b.field("n", b.st("int")))
 	proto := b.protocol(NS, "Proto",
 		b.step("header", b.st("Entry")),
 		b.step("perms", b.strm(b.st("Perm"))),
 		b.step("either", b.gt(nil, nil, b.st("Level"), b.st("Entry"))),
-		b.step("lookup", b.st("Lookup")))
-	return &dsl.Namespace{Name: NS, IsTopLevel: true, TypeDefinitions: dsl.TypeDefinitions{rec, perm, names, level}, Protocols: []*dsl.ProtocolDefinition{proto}}
+		b.step("lookup", b.st("Lookup")),
+		b.step("aliased", b.strm(b.gt(nil, b.st("Label"), b.st("EntryAlias"), b.st("int")))),
+		b.step("tagged", b.st("Tagged")))
+	return &dsl.Namespace{Name: NS, IsTopLevel: true, TypeDefinitions: dsl.TypeDefinitions{rec, perm, names, level, label, ids, entryAlias, tagged}, Protocols: []*dsl.ProtocolDefinition{proto}}
 }
 
 // c04pFingerprint: the model as data - every list in declaration order.
